@@ -5,6 +5,7 @@ import Ark.Props.C03Drain
 import Ark.Props.C20Words
 import Ark.Proofs.GenBridge.BookArchetype
 import Ark.Props.C03Exact
+import Ark.Props.C03Rel
 
 namespace Ark.Props.C03
 open Ark
@@ -127,5 +128,50 @@ theorem hist_filterOK_necessary : type_of% @Ark.Props.C03Exact.filterOK_necessar
 
 /-- finding: with all 64 lock bits outstanding the query panics -/
 theorem hist_lock_necessary : type_of% @Ark.Props.C03Exact.lock_necessary := @Ark.Props.C03Exact.lock_necessary
+
+
+/-! ### With relation targets (Props/C03Rel) -/
+
+/-- **C03 with relation targets**, state level under the world invariant `TInv`: a query with relations fixed in the filter and/or given per call succeeds and visits, once each, exactly the alive entities whose component set matches AND whose target for every named relation is the one given; each visit sits at the row the index records; the targets it yields are the entity's; Count and EntityAt agree with the iteration -/
+theorem rel_drain_rel : type_of% @Ark.Props.C03Rel.drain_rel := @Ark.Props.C03Rel.drain_rel
+
+/-- the same for the walk over all archetypes (`UnsafeFilter`) -/
+theorem rel_drain_rel_untyped : type_of% @Ark.Props.C03Rel.drain_rel_untyped := @Ark.Props.C03Rel.drain_rel_untyped
+
+/-- the same through a registered filter (fixed relations in the cache entry, per-call relations matched by the cursor) -/
+theorem rel_drain_rel_cached : type_of% @Ark.Props.C03Rel.drain_rel_cached := @Ark.Props.C03Rel.drain_rel_cached
+
+/-- the visited handles are duplicate-free and are exactly the alive handles that match -/
+theorem rel_visited_iff : type_of% @Ark.Props.C03Rel.visited_iff := @Ark.Props.C03Rel.visited_iff
+
+/-- every reported handle is alive -/
+theorem rel_visits_alive : type_of% @Ark.Props.C03Rel.visits_alive := @Ark.Props.C03Rel.visits_alive
+
+/-- every yielded target is zero or alive -/
+theorem rel_yielded_target_ok : type_of% @Ark.Props.C03Rel.yielded_target_ok := @Ark.Props.C03Rel.yielded_target_ok
+
+/-- a query naming a dead (also a recycled) target visits nothing -/
+theorem rel_dead_target_visits_nothing : type_of% @Ark.Props.C03Rel.dead_target_visits_nothing := @Ark.Props.C03Rel.dead_target_visits_nothing
+
+/-- a typed query with a bad per-call relation is rejected before the lock is taken -/
+theorem rel_drain_rejected : type_of% @Ark.Props.C03Rel.drain_rejected := @Ark.Props.C03Rel.drain_rejected
+
+/-- after ANY history of register / new / remove-entity / set-relations / add with relations (and queries), an unregistered query is exact -/
+theorem rel_reach_query : type_of% @Ark.Props.C03Rel.reach_query := @Ark.Props.C03Rel.reach_query
+
+/-- … and so is a query through a filter registered in the reached world -/
+theorem rel_reach_query_cached : type_of% @Ark.Props.C03Rel.reach_query_cached := @Ark.Props.C03Rel.reach_query_cached
+
+/-- the invariants needed (world invariant, component index, rows alive, idle lock) hold after every such history -/
+theorem rel_reach_qgood : type_of% @Ark.Props.C03Rel.reach_qgood := @Ark.Props.C03Rel.reach_qgood
+
+/-- finding: `UnsafeFilter.Query(rel…)` validates nothing; naming a relation on a filter that also matches archetypes without that component yields entities that have no such relation -/
+theorem rel_relsTyped_necessary_sound : type_of% @Ark.Props.C03Rel.relsTyped_necessary_sound := @Ark.Props.C03Rel.relsTyped_necessary_sound
+
+/-- finding: … or panics (index −1) when a matching archetype has other relation columns but not the named one -/
+theorem rel_relsTyped_necessary_panic : type_of% @Ark.Props.C03Rel.relsTyped_necessary_panic := @Ark.Props.C03Rel.relsTyped_necessary_panic
+
+/-- finding: … or matches a non-relation component given with the zero target -/
+theorem rel_relsTyped_necessary_nonrel : type_of% @Ark.Props.C03Rel.relsTyped_necessary_nonrel := @Ark.Props.C03Rel.relsTyped_necessary_nonrel
 
 end Ark.Props.C03
